@@ -1135,3 +1135,28 @@ pub fn oddify_names(rng: &mut Rng, blocks: &mut [ABlock], types: &[&str], share:
     }
     done
 }
+
+/// Replaces some numeric attribute values of data blocks (not of the geometry) by edge values a user can
+/// enter: 0, a very small and a very large number. Returns the list of (block type, attribute, value).
+pub fn edge_numbers(rng: &mut Rng, blocks: &mut [ABlock], share: f64) -> Vec<(String, String, f32)> {
+    const TYPES: [&str; 10] = ["MATERIAL", "GLASS-TYPE", "NAME-FRAME", "GAP", "SPACE-CONDITIONS", "SPACE", "WINDOW", "THERMAL-BRIDGE", "BUILD-PARAMETERS", "CONSTRUCTION"];
+    const GEOMETRY: [&str; 14] = ["X", "Y", "Z", "HEIGHT", "WIDTH", "AZIMUTH", "TILT", "MULTIPLIER", "MULTIPLIED", "TYPE", "ANGLE", "DEFINICION", "NUM-VIVIENDAS", "Z-GROUND"];
+    let mut done = vec![];
+    for b in blocks.iter_mut() {
+        if !TYPES.contains(&b.btype.as_str()) {
+            continue;
+        }
+        for (k, v) in b.attrs.iter_mut() {
+            if GEOMETRY.contains(&k.as_str()) {
+                continue;
+            }
+            if let AVal::Num(x) = v {
+                if rng.chance(share) {
+                    *x = *rng.pick(&[0.0f32, 0.0, 0.0, 1e-6, 1e6]);
+                    done.push((b.btype.clone(), k.clone(), *x));
+                }
+            }
+        }
+    }
+    done
+}
